@@ -19,6 +19,12 @@
 #ifdef C10_WITH_GMP
 #include <gmpxx.h>
 #endif
+#include <cerrno>
+#include <csignal>
+#include <sys/resource.h>
+#include <sys/types.h>
+#include <sys/wait.h>
+#include <unistd.h>
 #include "common/vh.h"
 
 namespace c10 {
@@ -82,6 +88,8 @@ enum Ctr {
   K_COH_PLUS_TIMES, K_COH_TIMES_MINUS, K_COH_TIMES, K_COH_PLUS,
   S_NEG_OPERAND, S_LT_MINUS_P, S_GE_P, S_P_MINUS_1, S_RESULT_WRAPPED, S_UINT32_WRAP, S_PARTIAL_MIXED, S_PARTIAL_NONE,
   S_PARTIAL_ALL, S_PROPER_Q, S_FUSED_NEAR_WORD, K_SKIP_INVERSE_OF_ZERO, K_SKIP_FUSED_OVERFLOW, K_SKIP_TYPE,
+  K_CONVERT_SHORT, K_CONVERT_USHORT, K_CONVERT_SCHAR, K_CONVERT_UCHAR, K_CONVERT_LLONG, K_CONVERT_ULLONG, K_CONVERT_INT128,
+  S_SUM_WRAPS_ELEMENT, S_OPERAND_ABOVE_2P32, K_SKIP_RESULT_TYPE, K_INIT_GUARDED,
   K_N
 };
 static const char* const kCtrName[K_N] = {
@@ -92,6 +100,8 @@ static const char* const kCtrName[K_N] = {
   "state.negative_operand", "state.operand_below_minus_p", "state.operand_ge_p", "state.operand_p_minus_1", "state.result_needed_reduction",
   "state.sum_wraps_uint32", "state.partial_inverse_some_primes", "state.partial_inverse_no_prime", "state.partial_inverse_all_primes",
   "state.partial_proper_subproduct", "state.fused_exact_above_2p31", "skip.inverse_of_zero", "skip.fused_would_overflow_word", "skip.type_cannot_hold",
+  "op.convert.short", "op.convert.ushort", "op.convert.schar", "op.convert.uchar", "op.convert.llong", "op.convert.ullong", "op.convert.int128",
+  "state.sum_wraps_element_type", "state.operand_above_2p32", "skip.result_type_cannot_hold_residue", "op.init_under_watchdog",
 };
 
 // stable classification of a failing situation (all strings are literals / static): becomes the violation signature
@@ -107,6 +117,8 @@ struct Rep {
   vh::Case& c;
   std::string cls;    // class under test (stable)
   std::string fld;    // field description, case specific (goes to detail)
+  std::string sfx;    // stable suffix of every signature of this block (element type / situation such as ",after=refused_characteristic")
+  int coarse = 0;     // 1: the operand classes are left out of the signatures, 2: the integer type as well (they stay in the detail text)
   uint64_t n[K_N];
   std::set<std::string> seen;
   int nviol = 0;
@@ -115,10 +127,10 @@ struct Rep {
   void flush() {
     for (int i = 0; i < K_N; ++i) if (n[i]) { c.count(kCtrName[i], n[i]); n[i] = 0; }
   }
-  uint64_t total_ops() const { uint64_t t = 0; for (int i = 0; i < S_NEG_OPERAND; ++i) t += n[i]; return t; }
+  uint64_t total_ops() const { uint64_t t = 0; for (int i = 0; i < S_NEG_OPERAND; ++i) t += n[i]; for (int i = K_CONVERT_SHORT; i <= K_CONVERT_INT128; ++i) t += n[i]; return t; }
   // one violation record per distinct (check, sig) per case; evaluation goes on (the classes are stateless w.r.t. arithmetic)
   void fail(const std::string& check, const std::string& sig, const std::string& detail) {
-    std::string full = "class=" + cls + "," + sig;
+    std::string full = "class=" + cls + "," + sig + sfx;
     if (!seen.insert(check + "|" + full).second) return;
     if (++nviol > 24) return;
     c.violation(check, full, cls + " over " + fld + ": " + detail);
@@ -127,11 +139,12 @@ struct Rep {
   template <class Z>
   __attribute__((noinline)) void failv(const char* check, const Sig& s, const Z* a, const Z* b, const Z* cc, const Z* got, const Z* want) {
     std::string sig = std::string("form=") + s.form;
-    if (s.type) sig += std::string(",type=") + s.type;
-    if (s.k1) sig += std::string(",") + s.k1 + "=" + s.v1;
-    if (s.k2) sig += std::string(",") + s.k2 + "=" + s.v2;
+    if (s.type && coarse < 2) sig += std::string(",type=") + s.type;
+    if (s.k1 && coarse < 1) sig += std::string(",") + s.k1 + "=" + s.v1;
+    if (s.k2 && coarse < 1) sig += std::string(",") + s.k2 + "=" + s.v2;
     if (s.extra && *s.extra) sig += std::string(",") + s.extra;
     std::string d = std::string(s.form) + (s.type ? std::string(" [") + s.type + "]" : std::string());
+    if (coarse) { if (s.k1) d += std::string(" ") + s.k1 + "=" + s.v1; if (s.k2) d += std::string(" ") + s.k2 + "=" + s.v2; }
     if (a) d += " a=" + zstr(*a);
     if (b) d += " b=" + zstr(*b);
     if (cc) d += " c=" + zstr(*cc);
@@ -172,6 +185,13 @@ template <class I> inline const char* tname() {
   if (std::is_same_v<I, unsigned int>) return "uint";
   if (std::is_same_v<I, unsigned long>) return "ulong";
   if (std::is_same_v<I, bool>) return "bool";
+  if (std::is_same_v<I, short>) return "short";
+  if (std::is_same_v<I, unsigned short>) return "ushort";
+  if (std::is_same_v<I, signed char>) return "schar";
+  if (std::is_same_v<I, unsigned char>) return "uchar";
+  if (std::is_same_v<I, long long>) return "llong";
+  if (std::is_same_v<I, unsigned long long>) return "ullong";
+  if (std::is_same_v<I, __int128>) return "int128";
   return "other";
 }
 template <class I> inline Ctr tctr() {
@@ -179,19 +199,43 @@ template <class I> inline Ctr tctr() {
   if (std::is_same_v<I, long>) return K_CONVERT_LONG;
   if (std::is_same_v<I, unsigned int>) return K_CONVERT_UINT;
   if (std::is_same_v<I, unsigned long>) return K_CONVERT_ULONG;
+  if (std::is_same_v<I, short>) return K_CONVERT_SHORT;
+  if (std::is_same_v<I, unsigned short>) return K_CONVERT_USHORT;
+  if (std::is_same_v<I, signed char>) return K_CONVERT_SCHAR;
+  if (std::is_same_v<I, unsigned char>) return K_CONVERT_UCHAR;
+  if (std::is_same_v<I, long long>) return K_CONVERT_LLONG;
+  if (std::is_same_v<I, unsigned long long>) return K_CONVERT_ULLONG;
+  if (std::is_same_v<I, __int128>) return K_CONVERT_INT128;
   return K_CONVERT_BOOL;
 }
+// limits of an integer type as exact integers (std::numeric_limits<__int128> is only specialised in GNU mode)
+template <class I> inline i128 tmax() {
+  if constexpr (std::is_same_v<I, __int128>) return (i128)(~(unsigned __int128)0 >> 1);
+  else return (i128)std::numeric_limits<I>::max();
+}
+template <class I> inline i128 tmin() {
+  if constexpr (std::is_same_v<I, __int128>) return -tmax<I>() - 1;
+  else return (i128)std::numeric_limits<I>::min();
+}
+template <class I> inline constexpr bool tsigned() { return std::is_same_v<I, __int128> || std::is_signed_v<I>; }
 // can the exact value v be passed as an I, and (documented precondition of the element classes:
 // "Integer_type should be able to contain the characteristic if signed") can I hold P ?
 template <class I> inline bool fits(i128 v, i128 P) {
-  if (v < (i128)std::numeric_limits<I>::min() || v > (i128)std::numeric_limits<I>::max()) return false;
-  if (std::is_signed_v<I> && P > (i128)std::numeric_limits<I>::max()) return false;
+  if (v < tmin<I>() || v > tmax<I>()) return false;
+  if (tsigned<I>() && P > tmax<I>()) return false;
   return true;
 }
+// the machine integer types the conversions are driven with; a translation unit that defines C10_EXT_TYPES also gets the
+// narrow and the widest ones (short, unsigned short, signed / unsigned char, long long, unsigned long long, __int128)
 template <bool kBool, class Fn> inline void for_types(Fn&& fn) {
   fn(int{}); fn(long{}); fn((unsigned int)0); fn((unsigned long)0);
   if constexpr (kBool) fn(bool{});
+#ifdef C10_EXT_TYPES
+  fn(short{}); fn((unsigned short)0); fn((signed char)0); fn((unsigned char)0); fn((long long)0); fn((unsigned long long)0); fn((__int128)0);
+#endif
 }
+// unsigned type in which the harness hands a reduced residue to class F: unsigned int, unless F's element type is wider
+template <class F> using carrier_t = std::conditional_t<(sizeof(typename F::Element) > sizeof(unsigned int)), typename F::Element, unsigned int>;
 
 // ------------------------------------------------------------------------------------------ oracle: partial inverse
 // The property statement: the partial inverse of x w.r.t. a product of primes Q is (v, T) with T = product of the
@@ -308,10 +352,13 @@ inline std::vector<i128> reduced_boundary(i128 P, vh::Rng& r, int nrandom) {
 }
 
 // ------------------------------------------------------------------------------------------ element classes (native)
-// unary observations on one exact operand a
-template <class F, bool kBool>
+// unary observations on one exact operand a.  kLimited: the inverses are not requested (compile-time classes instantiated with a
+// non-default element type: those members do not compile, see "assumptions")
+template <class F, bool kBool, bool kLimited = false>
 inline void elem_unary(Rep& R, i128 P, const std::vector<uint64_t>& primes, i128 a, const std::vector<i128>& Qs) {
   typedef i128 Z;
+  typedef carrier_t<F> U;
+  typedef U QT;   // type in which a product of characteristics Q is passed
   const i128 ra = pmod(a, P), ra1 = pmod(ra + 1, P);
   const char* oc = opclass(a, P);
   note_operand(R, a, P);
@@ -326,19 +373,20 @@ inline void elem_unary(Rep& R, i128 P, const std::vector<uint64_t>& primes, i128
     g = v;
     got = (i128)g.get_value();
     C10_CHECKV(R, Z, K_ASSIGN, got == ra, "convert", &a, C10_NIL(Z), C10_NIL(Z), &got, &ra, "assignment", tname<I>(), "operand", oc);
-    F h((unsigned int)ra);
+    F h((U)ra);
     C10_CHECKV(R, Z, K_CMP_MIXED, (h == v) && (v == h) && !(h != v) && !(v != h), "compare", &ra, &a, C10_NIL(Z), C10_NIL(Z), C10_NIL(Z), "elem_vs_integer_of_same_residue", tname<I>(), "operand", oc);
     if (P > 1) {
-      F h2((unsigned int)ra1);
+      F h2((U)ra1);
       C10_CHECKV(R, Z, K_CMP_MIXED, !(h2 == v) && !(v == h2) && (h2 != v) && (v != h2), "compare", &ra1, &a, C10_NIL(Z), C10_NIL(Z), C10_NIL(Z), "elem_vs_integer_of_other_residue", tname<I>(), "operand", oc);
     }
   });
-  F x((unsigned int)ra);
-  { i128 got = (i128)(unsigned int)x; C10_CHECKV(R, Z, K_CAST, got == ra, "convert", &ra, C10_NIL(Z), C10_NIL(Z), &got, &ra, "cast_to_unsigned"); }
-  { F cp(x); F mv(std::move(cp)); F as; as = x; F sw((unsigned int)ra1); swap(as, sw);
+  F x((U)ra);
+  if (ra <= (i128)UINT_MAX) { i128 got = (i128)(unsigned int)x; C10_CHECKV(R, Z, K_CAST, got == ra, "convert", &ra, C10_NIL(Z), C10_NIL(Z), &got, &ra, "cast_to_unsigned"); }
+  { F cp(x); F mv(std::move(cp)); F as; as = x; F sw((U)ra1); swap(as, sw);
     i128 g1 = (i128)mv.get_value(), g2 = (i128)sw.get_value(), g3 = (i128)as.get_value();
     C10_CHECKV(R, Z, K_ASSIGN, g1 == ra && g2 == ra && g3 == ra1, "convert", &ra, C10_NIL(Z), C10_NIL(Z), &g1, &ra, "copy_move_swap"); }
-  if (primes.size() == 1) {
+  if constexpr (kLimited) { (void)Qs; return; }
+  else if (primes.size() == 1) {
     if (ra == 0) { ++R.n[K_SKIP_INVERSE_OF_ZERO]; }
     else {
       F inv = x.get_inverse();
@@ -347,11 +395,11 @@ inline void elem_unary(Rep& R, i128 P, const std::vector<uint64_t>& primes, i128
       F one = x * inv;
       i128 ov = (i128)one.get_value();
       C10_CHECKV(R, Z, K_INVERSE, ov == 1 && one == F::get_multiplicative_identity(), "inverse", &ra, &iv, C10_NIL(Z), &ov, C10_NIL(Z), "x_times_inverse");
-      auto pi = x.get_partial_inverse((unsigned int)P);
+      auto pi = x.get_partial_inverse((QT)P);
       i128 gv = (i128)pi.first.get_value(), gT = (i128)pi.second;
       C10_CHECKV(R, Z, K_PARTIAL_INVERSE, gv == iv && gT == P, "partial_inverse", &ra, &P, C10_NIL(Z), &gv, &iv, "single_prime");
     }
-    i128 one = (i128)F::get_partial_multiplicative_identity((unsigned int)P).get_value();
+    i128 one = (i128)F::get_partial_multiplicative_identity((QT)P).get_value();
     C10_CHECKV(R, Z, K_PARTIAL_IDENTITY, one == 1, "partial_identity", &P, C10_NIL(Z), C10_NIL(Z), &one, C10_NIL(Z), "single_prime");
   } else {
     F inv = x.get_inverse();
@@ -359,7 +407,7 @@ inline void elem_unary(Rep& R, i128 P, const std::vector<uint64_t>& primes, i128
     const char* why = partial_inverse_wrong<i128>(primes, P, ra, P, iv, nullptr);
     C10_CHECKV(R, Z, K_INVERSE, !*why, "inverse", &ra, C10_NIL(Z), C10_NIL(Z), &iv, C10_NIL(Z), "get_inverse_multi", nullptr, nullptr, nullptr, nullptr, nullptr, why);
     for (i128 Q : Qs) {
-      auto pi = x.get_partial_inverse((unsigned int)Q);
+      auto pi = x.get_partial_inverse((QT)Q);
       i128 gv = (i128)pi.first.get_value(), gT = (i128)pi.second;
       why = partial_inverse_wrong<i128>(primes, P, ra, Q, gv, &gT);
       note_partial<i128>(R, primes, P, ra, Q);
@@ -381,7 +429,7 @@ inline void elem_constants(Rep& R, i128 P, const std::vector<uint64_t>& primes, 
   C10_CHECKV(R, Z, K_IDENTITY, got == want, "identity", C10_NIL(Z), C10_NIL(Z), C10_NIL(Z), &got, &want, "default_constructed");
   if (primes.size() > 1)
     for (i128 Q : Qs) {
-      i128 v = (i128)F::get_partial_multiplicative_identity((unsigned int)Q).get_value();
+      i128 v = (i128)F::get_partial_multiplicative_identity((carrier_t<F>)Q).get_value();
       const char* why = partial_identity_wrong<i128>(primes, P, Q, v);
       C10_CHECKV(R, Z, K_PARTIAL_IDENTITY, !*why, "partial_identity", &Q, C10_NIL(Z), C10_NIL(Z), &v, C10_NIL(Z), "multi", nullptr, nullptr, nullptr, nullptr, nullptr, why);
     }
@@ -392,11 +440,13 @@ inline void elem_binary(Rep& R, i128 P, i128 a, i128 b) {
   typedef i128 Z;
   const i128 ra = pmod(a, P), rb = pmod(b, P);
   const i128 sum = pmod(ra + rb, P), dif = pmod(ra - rb, P), rdif = pmod(rb - ra, P), prd = pmod(ra * rb, P);
-  const F x((unsigned int)ra), y((unsigned int)rb);
+  const F x((carrier_t<F>)ra), y((carrier_t<F>)rb);
   i128 got;
   if (a == ra && b == rb) {
     if (ra + rb >= P || ra < rb || ra * rb >= P) ++R.n[S_RESULT_WRAPPED];
     if (ra + rb > (i128)UINT_MAX) ++R.n[S_UINT32_WRAP];
+    if (ra + rb > (i128)std::numeric_limits<typename F::Element>::max()) ++R.n[S_SUM_WRAPS_ELEMENT];
+    if (ra > (i128)UINT_MAX || rb > (i128)UINT_MAX) ++R.n[S_OPERAND_ABOVE_2P32];
     got = (i128)(x + y).get_value(); C10_CHECKV(R, Z, K_ADD, got == sum, "add", &ra, &rb, C10_NIL(Z), &got, &sum, "elem+elem");
     got = (i128)(x - y).get_value(); C10_CHECKV(R, Z, K_SUB, got == dif, "sub", &ra, &rb, C10_NIL(Z), &got, &dif, "elem-elem");
     got = (i128)(x * y).get_value(); C10_CHECKV(R, Z, K_MUL, got == prd, "mul", &ra, &rb, C10_NIL(Z), &got, &prd, "elem*elem");
@@ -418,9 +468,13 @@ inline void elem_binary(Rep& R, i128 P, i128 a, i128 b) {
     { F t(x); t += v; g = (i128)t.get_value(); C10_CHECKV(R, Z, K_INPLACE, g == sum, "add", &ra, &b, C10_NIL(Z), &g, &sum, "elem+=integer", tn, "integer", oc); }
     { F t(x); t -= v; g = (i128)t.get_value(); C10_CHECKV(R, Z, K_INPLACE, g == dif, "sub", &ra, &b, C10_NIL(Z), &g, &dif, "elem-=integer", tn, "integer", oc); }
     { F t(x); t *= v; g = (i128)t.get_value(); C10_CHECKV(R, Z, K_INPLACE, g == prd, "mul", &ra, &b, C10_NIL(Z), &g, &prd, "elem*=integer", tn, "integer", oc); }
+    // integer (op) element returns the residue in the integer's type: only judged when that type can hold every residue
+    if (tmax<I>() < P - 1) ++R.n[K_SKIP_RESULT_TYPE];
+    else {
     { I r = v + x; g = (i128)r; C10_CHECKV(R, Z, K_ADD_MIXED, g == sum, "add", &b, &ra, C10_NIL(Z), &g, &sum, "integer+elem", tn, "integer", oc); }
     { I r = v - x; g = (i128)r; C10_CHECKV(R, Z, K_SUB_MIXED, g == rdif, "sub", &b, &ra, C10_NIL(Z), &g, &rdif, "integer-elem", tn, "integer", oc); }
     { I r = v * x; g = (i128)r; C10_CHECKV(R, Z, K_MUL_MIXED, g == prd, "mul", &b, &ra, C10_NIL(Z), &g, &prd, "integer*elem", tn, "integer", oc); }
+    }
     C10_CHECKV(R, Z, K_CMP_MIXED, (x == v) == (ra == rb) && (v == x) == (ra == rb) && (x != v) == (ra != rb) && (v != x) == (ra != rb), "compare", &ra, &b, C10_NIL(Z), C10_NIL(Z), C10_NIL(Z),
                "elem_vs_integer", tn, "integer", oc);
   });
@@ -496,6 +550,10 @@ inline void ops_binary(Rep& R, Op& op, const Z& P, const Z& a, const Z& b) {
   const E ea = mkE<Z, E>(a), eb = mkE<Z, E>(b);
   if (ra + rb >= P || ra < rb || ra * rb >= P) ++R.n[S_RESULT_WRAPPED];
   if (ra + rb > toZ<Z>((unsigned long)UINT_MAX)) ++R.n[S_UINT32_WRAP];
+  if constexpr (std::is_integral_v<E>) {
+    if (ra + rb > toZ<Z>((unsigned long)std::numeric_limits<E>::max())) ++R.n[S_SUM_WRAPS_ELEMENT];
+    if (ra > toZ<Z>((unsigned long)UINT_MAX) || rb > toZ<Z>((unsigned long)UINT_MAX)) ++R.n[S_OPERAND_ABOVE_2P32];
+  }
   const char* oa = opclass(a, P); const char* ob = opclass(b, P);
   Z got;
   got = toZ<Z>(op.add(ea, eb)); C10_CHECKV(R, Z, K_ADD, got == sum, "add", &a, &b, C10_NIL(Z), &got, &sum, "add", nullptr, "lhs", oa, "rhs", ob);
@@ -538,19 +596,32 @@ inline void ops_fused(Rep& R, Op& op, const Z& P, const Z& a, const Z& b, const 
 }
 
 // ------------------------------------------------------------------------------------------ block drivers
-template <class F, bool kBool>
+template <class F, bool kBool, bool kLimited = false>
 inline void elem_block(Rep& R, i128 P, const std::vector<uint64_t>& primes, const std::vector<i128>& as, const std::vector<i128>& bs, const std::vector<i128>& Qs) {
   for (i128 a : as) {
-    elem_unary<F, kBool>(R, P, primes, a, Qs);
+    elem_unary<F, kBool, kLimited>(R, P, primes, a, Qs);
     for (i128 b : bs) elem_binary<F, kBool>(R, P, a, b);
   }
-  elem_constants<F>(R, P, primes, Qs);
+  if constexpr (!kLimited) elem_constants<F>(R, P, primes, Qs);
 }
-// native operator classes (Element = unsigned int): operands outside [0, UINT_MAX] are not representable and skipped
+// get_value overloads for signed machine integers (Zp_field_operators, Z2_field_operators)
+template <class Op>
+inline void ops_signed_get_value(Rep& R, Op& op, i128 P, i128 a) {
+  for_types<false>([&](auto tag) {
+    using I = decltype(tag);
+    if (!tsigned<I>()) return;
+    if (!fits<I>(a, P)) { ++R.n[K_SKIP_TYPE]; return; }
+    note_operand(R, a, P);
+    i128 got = (i128)op.get_value((I)a);
+    C10_CHECK(R, tctr<I>(), got == pmod(a, P), "convert", std::string("form=get_value,type=") + tname<I>() + ",operand=" + opclass(a, P),
+              "get_value(" + zstr(a) + ")=" + zstr(got) + " want " + zstr(pmod(a, P)));
+  });
+}
+// native operator classes (Element = E): operands outside [0, max(E)] are not representable and skipped
 template <class Op, class E>
 inline void ops_block(Rep& R, Op& op, i128 P, const std::vector<uint64_t>& primes, const std::vector<i128>& as, const std::vector<i128>& bs, const std::vector<i128>& cs,
                       const std::vector<i128>& Qs, i128 word_limit, bool inverse_of_unreduced) {
-  const i128 emax = std::is_same_v<E, bool> ? 1 : (i128)UINT_MAX;
+  const i128 emax = std::is_same_v<E, bool> ? 1 : (i128)std::numeric_limits<E>::max();
   for (i128 a : as) {
     if (a < 0 || a > emax) continue;
     ops_unary<Op, E, i128>(R, op, P, primes, a, Qs, inverse_of_unreduced);
@@ -624,6 +695,72 @@ inline void must_refuse(Rep& R, const std::string& what, const char* why_sig, Fn
   bool thrown = false;
   try { fn(); } catch (const std::exception&) { thrown = true; }
   C10_CHECK(R, K_REFUSE, thrown, "refuse", std::string("form=") + why_sig, what + " was accepted (no exception)");
+}
+
+// ------------------------------------------------------------------------------------------ CPU watchdog
+// Runs fn() in a forked child under a CPU-time limit, so that an initialisation that never returns becomes ONE named violation
+// instead of a hung shard (the orchestrator's own watchdog only fires after half an hour).  The child reports how fn() ended;
+// nothing it computed is used: the caller repeats the call in its own process when the child came back.
+enum GuardResult { G_RETURNED, G_THREW, G_NEVER_RETURNED, G_DIED };
+template <class Fn>
+inline GuardResult guarded_probe(unsigned cpu_seconds, Fn&& fn) {
+  pid_t pid = fork();
+  if (pid < 0) throw std::runtime_error("fork failed");
+  if (pid == 0) {
+    vh::G().cur_case = -1;   // the child never writes to the result file
+    struct rlimit rl; rl.rlim_cur = cpu_seconds; rl.rlim_max = cpu_seconds + 2;
+    setrlimit(RLIMIT_CPU, &rl);
+    signal(SIGXCPU, SIG_DFL);
+    int code = 0;
+    try { fn(); } catch (const std::exception&) { code = 3; } catch (...) { code = 4; }
+    _exit(code);
+  }
+  int st = 0;
+  while (waitpid(pid, &st, 0) < 0 && errno == EINTR) {}
+  if (WIFEXITED(st) && WEXITSTATUS(st) == 0) return G_RETURNED;
+  if (WIFEXITED(st) && WEXITSTATUS(st) == 3) return G_THREW;
+  if (WIFSIGNALED(st) && (WTERMSIG(st) == SIGXCPU || WTERMSIG(st) == SIGKILL)) return G_NEVER_RETURNED;
+  return G_DIED;   // sanitizer report / crash in the child: the caller repeats the call in-process, where it is attributed to the case
+}
+// initialisation of a field under the watchdog.  Returns true when the caller may go on (fn() returned in the child AND then in this
+// process); reports check "terminates" when it never returned, "accept" when a valid characteristic / range was refused.
+template <class Fn>
+inline bool guarded_init(Rep& R, unsigned cpu_seconds, const char* form, const std::string& what, Fn&& fn) {
+  GuardResult g = guarded_probe(cpu_seconds, fn);
+  ++R.n[K_INIT_GUARDED];
+  if (g == G_NEVER_RETURNED) {
+    R.fail("terminates", std::string("form=") + form + ",never_returns", what + " did not return within " + std::to_string(cpu_seconds) + " s of CPU time (forked child killed by the watchdog)");
+    return false;
+  }
+  if (g == G_THREW) {
+    R.fail("accept", std::string("form=") + form + ",valid_refused", what + " threw although the characteristic / range is valid (contains a prime)");
+    return false;
+  }
+  try { fn(); } catch (const std::exception& e) {
+    R.fail("accept", std::string("form=") + form + ",valid_refused", what + " threw: " + e.what());
+    return false;
+  }
+  return true;
+}
+
+// ------------------------------------------------------------------------------------------ object state scenarios
+// move construction, swap, copy assignment, move assignment of an operator class, each followed by a use of the moved-to object,
+// and re-initialisation of the moved-from one.  init(op, field) gives op the field, blk(op, field) judges a reduced block in it.
+template <class Op, class Fld, class Init, class Blk>
+inline void ops_move_swap_assign(const Fld& f1, const Fld& f2, Init&& init, Blk&& blk) {
+  Op a, b;
+  init(a, f1); init(b, f2);
+  Op m(std::move(a)); blk(m, f1);          // move construction
+  swap(m, b); blk(m, f2); blk(b, f1);      // swap
+  Op d; d = m; blk(d, f2); blk(m, f2);     // copy assignment: both usable
+  Op e; init(e, f2); e = std::move(b); blk(e, f1);   // move assignment over a live object
+  Op g(e); blk(g, f1);                     // copy construction
+  init(a, f2); blk(a, f2);                 // a moved-from object can be given a field again
+  init(b, f1); blk(b, f1);
+}
+// an odd composite above p (no factor 2): the table constructions of the Z_p classes overwrite entries before they notice it
+inline unsigned long odd_composite_above(vh::Rng& r, unsigned long p) {
+  for (;;) { unsigned long n = (p + 1 + r.below(3 * p + 40)) | 1; if (n > p && !is_prime_naive(n)) return n; }
 }
 
 // a few composite numbers that defeat weak primality tests
